@@ -37,6 +37,79 @@ Proof.
   destruct (r bs) as [[a rest]| |]; auto. destruct HP, HQ. auto.
 Qed.
 
+(* ----------------------------------------------------------------- partial correctness (independent of no-panic) *)
+(* [okP P r]: whenever r succeeds on byte input, its value is in P and the rest is byte input *)
+Definition okP {A} (P : A -> Prop) (r : Rd A) : Prop :=
+  forall bs, is_bytes bs -> forall a rest, r bs = Ok (a, rest) -> P a /\ is_bytes rest.
+
+Lemma okP_of_safe {A} (P : A -> Prop) r : safeP P r -> okP P r.
+Proof. intros H bs Hbs a rest E. specialize (H bs Hbs). rewrite E in H. exact H. Qed.
+
+Lemma okP_bind {A B} (P : A -> Prop) (Q : B -> Prop) (r : Rd A) (f : A -> Rd B) :
+  okP P r -> (forall a, P a -> okP Q (f a)) -> okP Q (bind r f).
+Proof.
+  intros Hr Hf bs Hbs b rest E. unfold bind in E. destruct (r bs) as [[a bs']| |] eqn:E1; try discriminate.
+  destruct (Hr bs Hbs a bs' E1) as [Pa Hbs']. exact (Hf a Pa bs' Hbs' b rest E).
+Qed.
+
+Lemma okP_ret {A} (P : A -> Prop) a : P a -> okP P (ret a).
+Proof. intros Pa bs Hbs b rest E. inversion E; subst. auto. Qed.
+
+Lemma okP_fail {A} (P : A -> Prop) e : okP P (@fail A e).
+Proof. intros bs Hbs b rest E. discriminate. Qed.
+
+Lemma okP_if {A} (P : A -> Prop) (c : bool) (r1 r2 : Rd A) : okP P r1 -> okP P r2 -> okP P (if c then r1 else r2).
+Proof. destruct c; auto. Qed.
+
+Lemma okP_lift {A} (x : Result A) : okP (fun a => x = Ok a) (lift x).
+Proof. intros bs Hbs a rest E. unfold lift in E. destruct x; inversion E; subst. auto. Qed.
+
+Lemma okP_weaken {A} (P Q : A -> Prop) r : (forall a, P a -> Q a) -> okP P r -> okP Q r.
+Proof. intros H Hr bs Hbs a rest E. destruct (Hr bs Hbs a rest E). auto. Qed.
+
+(* the trace metadata of a parsed TraceInfo / Context is a byte string (it is copied from the input) *)
+Lemma read_TraceInfo_meta_bytes : okP (fun t => is_bytes (ti_meta t)) read_TraceInfo.
+Proof.
+  unfold read_TraceInfo.
+  eapply okP_bind; [apply okP_of_safe, safe_read_u8|]. intros main _. apply okP_if; [apply okP_fail|].
+  eapply okP_bind; [apply okP_of_safe, safe_read_u8|]. intros aux _. apply okP_if; [apply okP_fail|].
+  eapply okP_bind; [apply okP_of_safe, safe_read_u8|]. intros rands _.
+  apply okP_if; [apply okP_fail|]. apply okP_if; [apply okP_fail|].
+  eapply okP_bind; [apply okP_of_safe, safe_read_u8|]. intros e _.
+  apply okP_if; [apply okP_fail|]. apply okP_if; [apply okP_fail|].
+  eapply okP_bind; [apply okP_of_safe, (safe_read_uint 2)|]. intros n _.
+  eapply (okP_bind is_bytes).
+  { apply okP_if; [unfold read_vec; apply okP_of_safe, safe_read_slice | apply okP_ret; constructor]. }
+  intros meta Hmeta.
+  eapply okP_weaken; [|apply okP_lift]. intros t Ht. cbv beta in Ht.
+  apply TraceInfo_new_inv in Ht. destruct Ht as (_ & _ & _ & _ & _ & _ & _ & ->). exact Hmeta.
+Qed.
+
+Lemma read_Context_meta_bytes : okP (fun c => is_bytes (ti_meta (ctx_trace_info c))) read_Context.
+Proof.
+  unfold read_Context.
+  eapply okP_bind; [apply read_TraceInfo_meta_bytes|]. intros t Ht.
+  eapply okP_bind; [apply okP_of_safe, safe_read_u8|]. intros n _. apply okP_if; [apply okP_fail|].
+  eapply okP_bind; [unfold read_vec; apply okP_of_safe, safe_read_slice|]. intros m _.
+  eapply okP_bind; [apply okP_of_safe, read_ProofOptions_no_panic|]. intros o _.
+  apply okP_if; [apply okP_fail|]. apply okP_if; [apply okP_ret; exact Ht | apply okP_fail].
+Qed.
+
+Lemma read_Proof_meta_bytes : okP (fun p => is_bytes (ti_meta (ctx_trace_info (pr_context p)))) read_Proof.
+Proof.
+  unfold read_Proof.
+  eapply okP_bind; [apply read_Context_meta_bytes|]. intros c Hc.
+  eapply okP_bind; [apply okP_of_safe, safe_read_u8|]. intros nuq _.
+  eapply okP_bind; [apply okP_of_safe, (safe_read_blob 2)|]. intros com _.
+  eapply okP_bind; [apply okP_of_safe, (safe_read_many _ _ _ read_Queries_no_panic)|]. intros tq _.
+  eapply okP_bind; [apply okP_of_safe, read_Queries_no_panic|]. intros cq _.
+  eapply okP_bind; [apply okP_of_safe, read_OodFrame_no_panic|]. intros ood _.
+  eapply okP_bind; [apply okP_of_safe, read_FriProof_no_panic|]. intros fri _.
+  eapply okP_bind; [apply okP_of_safe, (safe_read_uint 8)|]. intros nonce _.
+  eapply okP_bind; [apply okP_of_safe, (safe_read_option _ _ (safe_read_vec_of _ _ safe_read_u8))|]. intros gkr _.
+  apply okP_ret. exact Hc.
+Qed.
+
 (* ------------------------------------------------------------------------------- what a parsed proof satisfies *)
 Definition queries_ok (q : Queries) : Prop := is_bytes (q_paths q) /\ is_bytes (q_values q).
 Definition ood_ok (f : OodFrame) : Prop := is_bytes (ood_trace_states f) /\ is_bytes (ood_lagrange f) /\ is_bytes (ood_evaluations f).
@@ -48,7 +121,7 @@ Definition context_ok (c : Context) : Prop :=
   wf_TraceInfo (ctx_trace_info c) /\ wf_ProofOptions (ctx_options c) /\ 1 <= len (ctx_modulus c) <= 255 /\
   Context_new (ctx_modulus c) (ctx_trace_info c) (ctx_options c) = Ok c.
 
-Definition proof_inv (p : Proof) : Prop :=
+Definition proof_inv0 (p : Proof) : Prop :=
   context_ok (pr_context p) /\
   0 <= pr_num_unique_queries p < 256 /\
   is_bytes (pr_commitments p) /\
@@ -57,6 +130,9 @@ Definition proof_inv (p : Proof) : Prop :=
   queries_ok (pr_constraint_queries p) /\
   ood_ok (pr_ood_frame p) /\
   fri_ok (pr_fri_proof p).
+
+Definition proof_inv (p : Proof) : Prop :=
+  proof_inv0 p /\ is_bytes (ti_meta (ctx_trace_info (pr_context p))).
 
 Lemma read_Queries_ok : safeP queries_ok read_Queries.
 Proof.
@@ -90,7 +166,7 @@ Proof.
   repeat split; cbn; auto; lia.
 Qed.
 
-Theorem read_Proof_inv : safeP proof_inv read_Proof.
+Theorem read_Proof_inv0 : safeP proof_inv0 read_Proof.
 Proof.
   unfold read_Proof. eapply safe_bind; [apply read_Context_total|]. intros c Hc.
   eapply safe_bind; [apply safe_read_u8|]. intros nuq Hnuq.
@@ -101,11 +177,18 @@ Proof.
   eapply safe_bind; [apply read_FriProof_ok|]. intros fri Hfri.
   eapply safe_bind; [apply (safe_read_uint 8)|]. intros nonce _.
   eapply safe_bind; [apply (safe_read_option _ _ (safe_read_vec_of _ _ safe_read_u8))|]. intros gkr _.
-  apply safe_ret. unfold proof_inv. cbn [pr_context pr_num_unique_queries pr_commitments pr_trace_queries
+  apply safe_ret. unfold proof_inv0. cbn [pr_context pr_num_unique_queries pr_commitments pr_trace_queries
     pr_constraint_queries pr_ood_frame pr_fri_proof].
   split; [exact Hc|]. split; [exact Hnuq|]. split; [exact Hcom|]. split; [exact Htq|].
   split; [|split; [exact Hcq|split; [exact Hood|exact Hfri]]].
   rewrite Hlen. unfold ti_num_segments. destruct (ti_aux (ctx_trace_info c) >? 0); lia.
+Qed.
+
+Theorem read_Proof_inv : safeP proof_inv read_Proof.
+Proof.
+  intros bs Hbs. pose proof (read_Proof_inv0 bs Hbs) as H0. pose proof (read_Proof_meta_bytes bs Hbs) as H1.
+  destruct (read_Proof bs) as [[p rest]| |]; auto. destruct H0 as [H0 Hr]. destruct (H1 p rest eq_refl) as [H1' _].
+  split; [split; assumption | assumption].
 Qed.
 
 (* ------------------------------------------------------------------------------------------ the theorems *)
